@@ -19,6 +19,10 @@ Lemma Forall3_eq : forall {A B} (fs : list A) (st st' : list B),
   Forall3 (fun _ x x' => @Ok B x = Ok x') fs st st' -> st = st'.
 Proof. intros A B fs st st' H. induction H as [|a b c la lb lc Hh Ht IH]; [reflexivity|]. inversion Hh. subst. reflexivity. Qed.
 
+Lemma Forall3_length12 : forall {A B C} (R : A -> B -> C -> Prop) la lb lc,
+  Forall3 R la lb lc -> List.length la = List.length lb.
+Proof. intros A B C R la lb lc H. induction H; cbn; congruence. Qed.
+
 Section Attr.
 Variable sch : schema.
 
